@@ -46,7 +46,7 @@ def run(c):
               invariants=["IssueMapBound", "IssueFifoBound"])
     c.cov["exhaustive"] = True
     # ---- 2. generation -> replay
-    nrep, steps, nontriv, outcomes = 0, 0, set(), {}
+    nrep, steps, nontriv, outcomes, spec_outcomes = 0, 0, set(), {}, {}
     gens = [
         dict(name="gen_timing", depth=depth - 1 if not thorough else depth, exp_choices=exps, report_set=(1,), horizon=9),
         dict(name="gen_late0", depth=depth - 1, exp_choices=(1, 3), report_set=(), horizon=9, late=0),
@@ -61,10 +61,14 @@ def run(c):
                                                      "conform": st["conform"], "tie_breaks": st["ties"], "drift": st["drift"]})
         for k, v in st["outcomes"].items():
             outcomes[k] = outcomes.get(k, 0) + v
-    for need in ("send:path", "send:none", "tick:done", "report:accepted", "report:dup", "ingest:handled", "adv:"):
-        if not outcomes.get(need):
-            c.fail_tool("vacuous replay: outcome class %s never observed on the real path set" % need)
+        for k, v in st["spec_outcomes"].items():
+            spec_outcomes[k] = spec_outcomes.get(k, 0) + v
+    # vacuity is judged on the GENERATOR side (outcome classes the spec predicts), never on what the code under test did
+    for need in ("send:path", "send:none", "tick:ok", "tick:failed", "tick:none", "tick:expiry", "tick:idle", "report:accepted", "report:dup", "ingest:handled", "adv:"):
+        if not spec_outcomes.get(need):
+            c.fail_tool("vacuous generation: outcome class %s never predicted by the spec in the replayed histories" % need)
     c.cov["replayed"] = nrep
+    c.cov["real_outcome_classes"] = outcomes
     c.cov["evaluations"] = steps
     c.cov["distinct_nontrivial"] = len(nontriv)
     # ---- 3. record -> P-monitors + trace validation
